@@ -92,7 +92,7 @@ func c04prop(ev *evid.Rec) func(rt *rapid.T) {
 			if len(live) == 0 {
 				break
 			}
-			e := c04edit{kind: rapid.SampledFrom([]string{"rename", "rename", "password", "delete"}).Draw(rt, fmt.Sprintf("edit%d", i)), login: rapid.SampledFrom(live).Draw(rt, fmt.Sprintf("editlogin%d", i))}
+			e := c04edit{kind: rapid.SampledFrom([]string{"rename", "rename", "password", "password-batch", "clear-password", "clear-password-batch", "delete"}).Draw(rt, fmt.Sprintf("edit%d", i)), login: rapid.SampledFrom(live).Draw(rt, fmt.Sprintf("editlogin%d", i))}
 			oldPw[e.login] = pw[e.login]
 			editedNames = append(editedNames, e.login)
 			switch e.kind {
@@ -108,9 +108,12 @@ func c04prop(ev *evid.Rec) func(rt *rapid.T) {
 				delete(pw, e.login)
 				delete(oldPw, e.newLogin)
 				editedNames = append(editedNames, e.newLogin)
-			case "password":
+			case "password", "password-batch":
 				e.newPw = rapid.SampledFrom(c04Passwords).Draw(rt, fmt.Sprintf("editpw%d", i))
 				pw[e.login] = e.newPw
+			case "clear-password", "clear-password-batch":
+				// the editor sends no password field at all: the password is removed, only the empty password logs in
+				pw[e.login] = ""
 			case "delete":
 				delete(pw, e.login)
 			}
@@ -270,6 +273,14 @@ func c04prop(ev *evid.Rec) func(rt *rapid.T) {
 						hlref.F(hlref.FUserLogin, hlref.Obfuscate([]byte(e.newLogin))), sfld(hlref.FUserName, "N-"+e.login), hlref.F(hlref.FUserAccess, allAccess[:]), hlref.F(hlref.FUserPassword, []byte{0})})))
 				case "password":
 					r = obs[0].Request(hlref.TranSetUser, hlref.F(hlref.FUserLogin, hlref.Obfuscate([]byte(e.login))), sfld(hlref.FUserName, "N-"+e.login), hlref.F(hlref.FUserAccess, allAccess[:]), hlref.F(hlref.FUserPassword, hlref.Obfuscate([]byte(e.newPw))))
+				case "clear-password":
+					r = obs[0].Request(hlref.TranSetUser, hlref.F(hlref.FUserLogin, hlref.Obfuscate([]byte(e.login))), sfld(hlref.FUserName, "N-"+e.login), hlref.F(hlref.FUserAccess, allAccess[:]))
+				case "password-batch":
+					r = obs[0].Request(hlref.TranUpdateUser, hlref.F(hlref.FData, hlref.EncodeFields([]hlref.Field{hlref.F(hlref.FUserLogin, hlref.Obfuscate([]byte(e.login))),
+						sfld(hlref.FUserName, "N-"+e.login), hlref.F(hlref.FUserAccess, allAccess[:]), hlref.F(hlref.FUserPassword, hlref.Obfuscate([]byte(e.newPw)))})))
+				case "clear-password-batch":
+					r = obs[0].Request(hlref.TranUpdateUser, hlref.F(hlref.FData, hlref.EncodeFields([]hlref.Field{hlref.F(hlref.FUserLogin, hlref.Obfuscate([]byte(e.login))),
+						sfld(hlref.FUserName, "N-"+e.login), hlref.F(hlref.FUserAccess, allAccess[:])})))
 				case "delete":
 					r = obs[0].Request(hlref.TranDeleteUser, hlref.F(hlref.FUserLogin, hlref.Obfuscate([]byte(e.login))))
 				}
